@@ -393,8 +393,10 @@ class URL:
             raise ValueError(
                 'Can\'t mix "authority" with "user", "password", "host" or "port".'
             )
-        if port is not None and not isinstance(port, int):
+        if port is not None and (isinstance(port, bool) or not isinstance(port, int)):
             raise TypeError(f"The port is required to be int, got {type(port)!r}.")
+        if port is not None and not (0 <= port <= 65535):
+            raise ValueError(f"port must be between 0 and 65535, got {port}")
         if port and not host:
             raise ValueError('Can\'t build URL with "port" but without "host".')
         if query and query_string:
